@@ -34,6 +34,11 @@ func Harness_C19() {
 	path := Shortest(start, end, rects)
 	vhReach("returned")
 	n := len(path)
+	vhObserveInt("len", n)
+	for _, q := range path {
+		vhObserveReal("x", q.X)
+		vhObserveReal("y", q.Y)
+	}
 	vhAssert(n >= 2, "path-has-two-points")
 	if n < 2 {
 		return
